@@ -198,7 +198,8 @@ fn secret_bytes(tok: &str) -> Vec<u8> {
     match tok {
         "k0" => vec![],
         "k1" => b"verif-secret-one".to_vec(),
-        "k2" => b"verif-secret-two".to_vec(),
+        // differs from k1 only by a trailing newline (a secret read from a file): still another secret
+        "k2" => b"verif-secret-one\n".to_vec(),
         "k3" => (0u16..200).map(|i| (i * 7 % 256) as u8).collect(), // long, not UTF-8
         other => other.as_bytes().to_vec(),
     }
